@@ -44,6 +44,9 @@ ASSUMPTIONS = [
 ]
 
 SIG = 'C01/'
+SIG_SQLITE_L0 = 'C01/background-inside-extent/sqlite-level0'
+SIG_SMALL_QUADS = 'C01/misplaced/mesh-quads-under-50px-unchecked'
+MESH_EXPOSURE_LIMIT = 0.5
 QUICK_CONFIGS = 400
 THOROUGH_CONFIGS = 8000
 
@@ -186,8 +189,11 @@ def build_request(spec, rd, gnd):
         cx = fx + (rd['u'] - 0.5) * 6 * win_w
         cy = fy + (rd['v'] - 0.5) * 6 * win_h
     elif where == 'inside':
-        cx = E[0] + rd['u'] * (E[2] - E[0])
-        cy = E[1] + rd['v'] * (E[3] - E[1])
+        # wholly inside the extent if the window fits
+        mx = min(win_w * 0.55, (E[2] - E[0]) / 2)
+        my = min(win_h * 0.55, (E[3] - E[1]) / 2)
+        cx = E[0] + mx + rd['u'] * (E[2] - E[0] - 2 * mx)
+        cy = E[1] + my + rd['v'] * (E[3] - E[1] - 2 * my)
     elif where == 'edge':
         side = int(rd['u'] * 4) % 4
         t = rd['v']
@@ -255,6 +261,11 @@ def build_request(spec, rd, gnd):
             ok = all(math.isfinite(a) and math.isfinite(b) and confgen.lonlat_in_area(a, b, area)
                      for a, b in zip(lo, la))
             if ok:
+                # the window must not wrap around the date line / leave the domain of R (the way back must close)
+                bx, by = ground.transform(lo, la, 'EPSG:4326', R)
+                tol = 1e-6 * max(abs(bbox[2] - bbox[0]), abs(bbox[3] - bbox[1]))
+                ok = all(abs(a - b) <= tol for a, b in zip(bx, xs)) and all(abs(a - b) <= tol for a, b in zip(by, ys))
+            if ok:
                 break
             if kind == 'tile' or min(w, h) <= 60:
                 return None, 'window-outside-valid-area'
@@ -305,12 +316,127 @@ def featureinfo_url(req, click):
 # ------------------------------------------------------------------------------------------------------
 # model of the levels that serve a view (only used to widen the tolerance and to guard against aliasing)
 
+def _view_points(req):
+    b = req['bbox']
+    return [(b[0], b[1]), (b[2], b[1]), (b[0], b[3]), (b[2], b[3]), ((b[0] + b[2]) / 2, (b[1] + b[3]) / 2)]
+
+
+def px_in_output(req, res_units, srs_from, grow=None):
+    """Largest size (in output pixels, over both axes and over the corners / centre of the view) of a pixel of
+    `res_units` per pixel in srs_from.  grow: optional srs whose local scale (srs_from -> grow) first enlarges the
+    pixel (pixel of a source image that is as fine as a cache level of another SRS)."""
+    R = req['srs']
+    rx = (req['bbox'][2] - req['bbox'][0]) / req['size'][0]
+    ry = (req['bbox'][3] - req['bbox'][1]) / req['size'][1]
+    worst = 0.0
+    for pt in _view_points(req):
+        X, Y = ground.transform(pt[0], pt[1], R, srs_from)
+        if not (math.isfinite(float(X)) and math.isfinite(float(Y))):
+            return math.inf
+        r = res_units
+        if grow is not None:
+            gx, gy = confgen.scale_xy(srs_from, grow, (float(X), float(Y)))
+            # res_units is given in `srs_from`; the source image has about that many pixels in `grow` units
+            r_g = res_units * max(gx, gy)
+            XX, YY = ground.transform(float(X), float(Y), srs_from, grow)
+            sx, sy = confgen.scale_xy(grow, R, (float(XX), float(YY)))
+            worst = max(worst, r_g * sx / rx, r_g * sy / ry)
+            continue
+        sx, sy = confgen.scale_xy(srs_from, R, (float(X), float(Y)))
+        worst = max(worst, r * sx / rx, r * sy / ry)
+    return worst
+
+
+def quad_centre_error_px(src_srs, dst_srs, centre, px, nw, nh):
+    """Error (in destination pixels) that an affine/bilinear mesh quad of nw x nh destination pixels of size px
+    (dst_srs units), centred at `centre` (dst_srs coordinates), makes at its centre when its four corners are
+    transformed exactly from dst_srs to src_srs - the same measure ImageTransformer uses to decide about subdividing
+    a quad."""
+    hx, hy = nw * px[0] / 2.0, nh * px[1] / 2.0
+    xs = [centre[0] - hx, centre[0] + hx, centre[0] - hx, centre[0] + hx, centre[0]]
+    ys = [centre[1] - hy, centre[1] - hy, centre[1] + hy, centre[1] + hy, centre[1]]
+    X, Y = ground.transform(xs, ys, dst_srs, src_srs)
+    if not (np.isfinite(X).all() and np.isfinite(Y).all()):
+        return math.inf
+    mx, my = float(np.mean(X[:4])), float(np.mean(Y[:4]))
+    bx, by = ground.transform(mx, my, src_srs, dst_srs)
+    if not (math.isfinite(float(bx)) and math.isfinite(float(by))):
+        return math.inf
+    return max(abs(float(bx) - centre[0]) / px[0], abs(float(by) - centre[1]) / px[1])
+
+
+def unchecked_quad_error(src_srs, dst_srs, centres, px, size=None):
+    """Largest centre error of the mesh quads that ImageTransformer accepts without looking at them (quads narrower
+    or lower than 50 px: a whole image if it is that small, otherwise pieces of up to 49 x 99 px)."""
+    if ground._crs_code(src_srs) == ground._crs_code(dst_srs):
+        return 0.0
+    if size is not None and (size[0] < 50 or size[1] < 50):
+        shapes = [size]
+        centres = centres[-1:]
+    else:
+        w = size[0] if size is not None else 99
+        h = size[1] if size is not None else 99
+        shapes = [(min(w, 49), min(h, 99)), (min(w, 99), min(h, 49))]
+    worst = 0.0
+    for c in centres:
+        for nw, nh in shapes:
+            worst = max(worst, quad_centre_error_px(src_srs, dst_srs, c, px, nw, nh))
+    return worst
+
+
+def mesh_exposure(spec, chain, req, levels_res):
+    """How far (px of the respective stage, expressed in output px) the unchecked small mesh quads of the
+    reprojection stages of this view can be off."""
+    R = req['srs']
+    rx = (req['bbox'][2] - req['bbox'][0]) / req['size'][0]
+    ry = (req['bbox'][3] - req['bbox'][1]) / req['size'][1]
+    pts = _view_points(req)
+    src = chain['source']
+    worst = 0.0
+    grids = [spec['grids'][g] for g in chain['grids']]
+    if grids:
+        # stored tiles -> view
+        worst = max(worst, unchecked_quad_error(grids[0]['srs'], R, pts, (rx, ry), tuple(req['size'])))
+        # lower cache -> meta tiles of the upper cache; source image -> meta tiles of the bottom cache
+        stages = [(grids[i + 1]['srs'], grids[i]['srs'], levels_res[i]) for i in range(len(grids) - 1)]
+        sup = source_srs_for(src, grids[-1]['srs'])
+        for S in sup or []:
+            stages.append((S, grids[-1]['srs'], levels_res[-1]))
+        for a, b, L in stages:
+            if ground._crs_code(a) == ground._crs_code(b):
+                continue
+            cs = []
+            for pt in pts:
+                X, Y = ground.transform(pt[0], pt[1], R, b)
+                if math.isfinite(float(X)) and math.isfinite(float(Y)):
+                    cs.append((float(X), float(Y)))
+            if not cs:
+                return math.inf
+            e = unchecked_quad_error(a, b, cs, (L, L))
+            worst = max(worst, e * px_in_output(req, L, b))
+    else:
+        for S in source_srs_for(src, R) or []:
+            worst = max(worst, unchecked_quad_error(S, R, pts, (rx, ry), tuple(req['size'])))
+    return worst
+
+
+def source_srs_for(src, srs):
+    """SRS in which a WMS source with supported_srs is asked for data of `srs` (None: asked directly)."""
+    sup = src.get('supported_srs')
+    if src['type'] != 'wms' or not sup or ground._crs_code(srs) in confgen_codes(sup):
+        return None
+    return sup
+
+
 def view_model(spec, chain, req, gnd):
-    """-> dict(rho, coarse (coarsest pixel of the chain in output px), beyond_shrink, alias, levels)"""
+    """-> dict(rho, coarse (coarsest pixel of the chain in output px), beyond_shrink, alias, levels, budget)"""
     R = req['srs']
     size = req['size']
     out = {'coarse': 1.0, 'beyond_shrink': False, 'levels': [], 'upscaled': False}
     query_ratio = None  # resolution asked from this stage, in units of the output pixel
+    src = chain['source']
+    L = None
+    levels_res = []
     for gname in chain['grids']:
         G = spec['grids'][gname]
         b = confgen.dense_bbox(req['bbox'], R, G['srs'])
@@ -328,10 +454,59 @@ def view_model(spec, chain, req, gnd):
         cand = set(closest_level_spec(res, Fr(a), Fr(115, 100)) for a in asked)
         L = max(float(res[l]) for l in cand)
         out['levels'].append((gname, sorted(cand)))
-        out['coarse'] = max(out['coarse'], L / q)
+        levels_res.append(L)
+        out['coarse'] = max(out['coarse'], px_in_output(req, L, G['srs']))
         query_ratio = L / q
-    out['rho'] = 1.5 if out['coarse'] <= 1.25 else 1.5 + out['coarse']
+    # a WMS source that is asked in another SRS delivers an image with square pixels in that SRS, about as many as
+    # the meta tile (or, for an uncached layer, the view) has
+    if chain['grids'] and L is not None:
+        G = spec['grids'][chain['grids'][-1]]
+        sup = source_srs_for(src, G['srs'])
+        if sup:
+            out['coarse'] = max(out['coarse'], max(px_in_output(req, L, G['srs'], grow=S) for S in sup))
+    elif not chain['grids']:
+        sup = source_srs_for(src, R)
+        if sup:
+            for S in sup:
+                bs = confgen.dense_bbox(req['bbox'], R, S)
+                if not all(math.isfinite(v) for v in bs):
+                    out['coarse'] = math.inf
+                    continue
+                p_s = min((bs[2] - bs[0]) / size[0], (bs[3] - bs[1]) / size[1])
+                out['coarse'] = max(out['coarse'], px_in_output(req, p_s, S))
+    if not math.isfinite(out['coarse']):
+        out['beyond_shrink'] = True
+        out['coarse'] = 1.0
+    out['mesh_exposure'] = 0.0
+    if not out['beyond_shrink'] and len(levels_res) == len(chain['grids']):
+        out['mesh_exposure'] = mesh_exposure(spec, chain, req, levels_res)
     out['upscaled'] = out['coarse'] > 1.25
+    # displacement budget (output px): 1.5 by the statement for the resampling between stored data and the output,
+    # plus what additional processing stages may legitimately add (each at most one pixel of that stage)
+    cpx = max(1.0, out['coarse'])
+    budget = [('base', 1.5)]
+    if out['upscaled']:
+        budget.append(('upscaled', out['coarse']))
+    src = chain['source']
+    if chain['rects'] and not view_inside(req, chain['rects'], 0.0):
+        budget.append(('clipped-at-extent', 1.0))      # integer placement of the clipped sub-image
+    if chain['caches']:
+        c_bottom = chain['caches'][-1]
+        G = spec['grids'][c_bottom['grid']]
+        if src.get('coverage') and src['type'] == 'wms':
+            meta_px = max(c_bottom['meta_size'][0] * G['tile_size'][0], c_bottom['meta_size'][1] * G['tile_size'][1]) \
+                + 2 * c_bottom['meta_buffer']
+            if not view_inside(req, [(tuple(src['coverage']['bbox']), src['coverage']['srs'])], meta_px * cpx * 1.3):
+                budget.append(('meta-tile-clipped-at-coverage', cpx))
+        if src['type'] == 'wms' and src.get('supported_srs') and \
+                ground._crs_code(G['srs']) not in confgen_codes(src['supported_srs']):
+            budget.append(('source-side-reprojection', cpx))
+        for _ in chain['caches'][1:]:
+            budget.append(('cascade-stage', cpx))
+    elif src.get('supported_srs') and ground._crs_code(R) not in confgen_codes(src['supported_srs']):
+        budget.append(('source-side-reprojection', 0.0))   # the only resampling of an uncached layer: base budget
+    out['budget'] = budget
+    out['rho'] = sum(v for _, v in budget)
     # aliasing guard: pixel sizes in ground units against the colour period
     b = confgen.dense_bbox(req['bbox'], R, gnd.srs)
     if all(math.isfinite(v) for v in b):
@@ -340,6 +515,21 @@ def view_model(spec, chain, req, gnd):
     else:
         out['alias'] = True
     return out
+
+
+def view_inside(req, rects, grow_px):
+    """True if the view, grown by grow_px output pixels on every side, lies inside all rectangles."""
+    b = req['bbox']
+    rx = (b[2] - b[0]) / req['size'][0]
+    ry = (b[3] - b[1]) / req['size'][1]
+    bb = (b[0] - grow_px * rx, b[1] - grow_px * ry, b[2] + grow_px * rx, b[3] + grow_px * ry)
+    for bbox, rs in rects:
+        t = confgen.dense_bbox(bb, req['srs'], rs, n=16)
+        if not all(math.isfinite(v) for v in t):
+            return False
+        if t[0] < bbox[0] or t[1] < bbox[1] or t[2] > bbox[2] or t[3] > bbox[3]:
+            return False
+    return True
 
 
 # ------------------------------------------------------------------------------------------------------
@@ -539,9 +729,14 @@ def tile_inside_extent(chain, req):
     return True
 
 
-def check_roundtrip(dep, spec, chain, req, gnd, arr, st_):
+def check_roundtrip(dep, spec, chain, req, gnd, arr, st_, vm):
     """A GetMap that is exactly one stored tile must be pixel-identical to the tile from the TMS service."""
     gname = chain['grids'][0]
+    if vm['levels'][0][1] != [req['tile'][2]]:
+        # levels closer together than the stretch factor: a resolution within rounding of the tile's level may
+        # legitimately be served from the neighbouring level (see C03, level-boundary slack)
+        st_.notes['roundtrip-level-ambiguous'] += 1
+        return None
     rg = confgen.ref_grid(spec['grids'][gname])
     tx, ty, z = req['tile']
     if not rg.in_grid(tx, ty, z):
@@ -550,8 +745,16 @@ def check_roundtrip(dep, spec, chain, req, gnd, arr, st_):
     if not tile_inside_extent(chain, req):
         st_.notes['roundtrip-tile-not-wholly-inside-extent'] += 1
         return None
-    y_tms = rg.flip_y(ty, z) if rg.ul else ty  # TMS counts rows from the south
-    resp = dep.app.get('/tms/1.0.0/%s/%s/%d/%d/%d.png' % (req['layer'], gname, z, tx, y_tms), expect_errors=True)
+    # /tiles/<layer>/<grid>/z/x/y without an origin parameter addresses tiles in the grid's own numbering; the
+    # tile services publish only every second level of sqrt2 grids (public z = internal z / 2)
+    z_pub = z
+    if spec['grids'][gname]['mode'] == 'sqrt2' or (spec['grids'][gname]['mode'] == 'min_res'
+                                                   and spec['grids'][gname].get('res_factor') == 'sqrt2'):
+        if z % 2:
+            st_.notes['roundtrip-odd-level-of-sqrt2-grid-not-published'] += 1
+            return None
+        z_pub = z // 2
+    resp = dep.app.get('/tiles/%s/%s/%d/%d/%d.png' % (req['layer'], gname, z_pub, tx, ty), expect_errors=True)
     if resp.status_int != 200 or not resp.content_type.startswith('image/'):
         st_.notes['roundtrip-tms-status-%d' % resp.status_int] += 1
         return None
@@ -659,6 +862,9 @@ def request_classes(spec, chain, req, vm):
         cl.append('ne-axis-1.3.0')
     if vm['upscaled']:
         cl.append('upscaled')
+    for name, _ in vm['budget'][1:]:
+        cl.append('budget+' + name)
+    cl.append('rho:%s' % ('1.5' if vm['rho'] <= 1.5 else '<=2.5' if vm['rho'] <= 2.5 else '<=3.5' if vm['rho'] <= 3.5 else '>3.5'))
     s = chain['source']
     if s['type'] == 'wms':
         cl.append('upstream-wms:' + s['version'])
@@ -683,22 +889,33 @@ def confgen_codes(lst):
     return set(ground._crs_code(s) for s in lst)
 
 
-def run_case(case, st_, only=None):
+def touches_sqlite_level0(spec, chain, vm):
+    """True if a level-0 tile of a `type: sqlite` cache may serve the view (MBTilesLevelCache.load_tiles treats
+    level 0 as "nothing to load", so tiles that are already stored come back empty)."""
+    served = dict(vm['levels'])
+    for c in chain['caches']:
+        if c['backend']['type'] == 'sqlite' and 0 in served.get(c['grid'], []):
+            return True
+    return False
+
+
+def run_case(case, st_, only=None, exclude_known=True):
     """Run the deployment of a case and all (or the `only`-th) of its views.  Returns (Violation|None, index)."""
     spec = case['spec']
     confgen.check_model(spec)
     gnd = make_ground(case)
+    open_sigs = core.open_signatures(PROPERTY) if exclude_known else set()
     with confgen.running(spec, gnd) as dep:
         for k, rd in enumerate(case['requests']):
             if only is not None and k != only:
                 continue
-            v = run_view(dep, case, k, rd, gnd, st_)
+            v = run_view(dep, case, k, rd, gnd, st_, open_sigs)
             if v is not None:
                 return v, k
     return None, None
 
 
-def run_view(dep, case, k, rd, gnd, st_):
+def run_view(dep, case, k, rd, gnd, st_, open_sigs=frozenset()):
     spec = case['spec']
     req, why = build_request(spec, rd, gnd)
     if req is None:
@@ -706,6 +923,15 @@ def run_view(dep, case, k, rd, gnd, st_):
         return None
     chain = confgen.layer_chain(spec, req['layer'])
     vm = view_model(spec, chain, req, gnd)
+    sqlite_l0 = touches_sqlite_level0(spec, chain, vm)
+    if sqlite_l0 and SIG_SQLITE_L0 in open_sigs:
+        # open known finding: do not even issue the request (it would store empty tiles in cascading caches)
+        st_.excluded['known-finding:sqlite-cache-level-0'] += 1
+        return None
+    small_quads = vm['mesh_exposure'] > MESH_EXPOSURE_LIMIT
+    if small_quads and SIG_SMALL_QUADS in open_sigs:
+        st_.excluded['known-finding:unchecked-small-mesh-quads'] += 1
+        return None
     dep.upstream.clear()
     resp = dep.app.get(getmap_url(req), expect_errors=True)
     n_up = len(dep.upstream.calls())
@@ -721,8 +947,11 @@ def run_view(dep, case, k, rd, gnd, st_):
             if needle in body:
                 key = needle.replace(' ', '-')
         st_.notes['getmap-no-image:%s' % key] += 1
-        if key in ('other', 'internal-error') and len(st_.extra.setdefault('no_image_samples', [])) < 5:
-            st_.extra['no_image_samples'].append({'url': getmap_url(req), 'body': body[:200]})
+        if key in ('other', 'internal-error') and len(st_.extra.setdefault('no_image_samples', [])) < 1:
+            import re as _re
+            m_ = _re.search(r'<ServiceException[^>]*>(.*?)</ServiceException>', resp.body.decode('utf-8', 'replace'), _re.S)
+            st_.extra['no_image_samples'].append({'url': getmap_url(req), 'source': spec['source'],
+                                                  'error': (m_.group(1) if m_ else body)[:300]})
     else:
         arr = ground.to_rgba_array(ground.decode_image(resp.body))
         if vm['beyond_shrink']:
@@ -733,7 +962,7 @@ def run_view(dep, case, k, rd, gnd, st_):
             judged = True
             problem = check_map(spec, chain, req, gnd, arr, vm, st_)
             if problem is None and req['tile'] is not None:
-                problem = check_roundtrip(dep, spec, chain, req, gnd, arr, st_)
+                problem = check_roundtrip(dep, spec, chain, req, gnd, arr, st_, vm)
     fi_done = 0
     if problem is None and chain['queryable']:
         for click in req['clicks']:
@@ -762,16 +991,21 @@ def run_view(dep, case, k, rd, gnd, st_):
     if fi_done:
         classes.append('with-featureinfo')
     key = {'spec': spec, 'ground': case['ground'], 'request': rd}
-    sample = {'request': req, 'rho': vm['rho'], 'levels': vm['levels'], 'source': spec['source'],
+    sample = {'request': req, 'rho': vm['rho'], 'budget': vm['budget'], 'levels': vm['levels'], 'source': spec['source'],
               'caches': [dict(c) for c in chain['caches']]}
     st_.case(key=key, nontrivial=bool(nontrivial), classes=classes, sample=sample)
     if problem is not None:
         what, msg = problem
+        signature = sig_for(chain, req, what)
+        if what == 'background-inside-extent' and sqlite_l0:
+            signature = SIG_SQLITE_L0
+        elif what == 'misplaced' and small_quads:
+            signature = SIG_SMALL_QUADS
         one = {'spec': spec, 'ground': case['ground'], 'requests': case['requests'][:k + 1]}
-        return core.Violation(sig_for(chain, req, what),
-                              '%s [%s %s %s bbox=%r size=%r on %s; levels %r]'
+        return core.Violation(signature,
+                              '%s [%s %s %s bbox=%r size=%r on %s; levels %r; budget %r]'
                               % (msg, req['version'], req['kind'], req['srs'], req['bbox'], req['size'], req['layer'],
-                                 vm['levels']), one)
+                                 vm['levels'], vm['budget']), one)
     return None
 
 
@@ -802,5 +1036,5 @@ def run(tier, seed, stats):
 
 
 def replay(case, stats):
-    v, _ = run_case(case, stats)
+    v, _ = run_case(case, stats, exclude_known=False)
     return [v] if v is not None else []
